@@ -10,15 +10,17 @@ Definition ety_of (t : N) : ety := {| e_size := ty_size t; e_align := ty_align t
 (* request code -> model operation (19/20 are GuestMemory requests, handled in run_step) *)
 Definition dop_of (o : sop) : option dop :=
   let T := ety_of (s_ty o) in let a := s_a o in let b := s_b o in
-  match s_code o with
-  | 0 => Some (DGetSlice a b) | 1 => Some DAsVolatileSlice | 2 => Some (DGetRef T a)
-  | 3 => Some (DGetArrayRef T a b) | 4 => Some (DAlignedAsRef T a) | 5 => Some (DAlignedAsMut T a)
-  | 6 => Some (DGetAtomicRef T a) | 7 => Some (DOffset a) | 8 => Some (DSubslice a b)
-  | 9 => Some (DSplitAtLo a) | 10 => Some (DSplitAtHi a) | 11 => Some DIntoArrayU8
-  | 12 => Some DRefToSlice | 13 => Some (DRefAt a) | 14 => Some DArrToSlice
-  | 15 => Some (DFromSlice T a b) | 16 => Some (DGrGetSlice a b) | 17 => Some (DGrGetHostAddress a)
-  | 18 => Some DGrAsVolatileSlice
-  | _ => None
+  match s_rq o with
+  | QGetSlice => Some (DGetSlice a b) | QAsVolatileSlice => Some DAsVolatileSlice
+  | QGetRef => Some (DGetRef T a) | QGetArrayRef => Some (DGetArrayRef T a b)
+  | QAlignedAsRef => Some (DAlignedAsRef T a) | QAlignedAsMut => Some (DAlignedAsMut T a)
+  | QGetAtomicRef => Some (DGetAtomicRef T a) | QOffset => Some (DOffset a)
+  | QSubslice => Some (DSubslice a b) | QSplitLo => Some (DSplitAtLo a) | QSplitHi => Some (DSplitAtHi a)
+  | QIntoArrayU8 => Some DIntoArrayU8 | QRefToSlice => Some DRefToSlice | QRefAt => Some (DRefAt a)
+  | QArrToSlice => Some DArrToSlice | QFromSlice => Some (DFromSlice T a b)
+  | QGrGetSlice => Some (DGrGetSlice a b) | QGrHostAddr => Some (DGrGetHostAddress a)
+  | QGrAsSlice => Some DGrAsVolatileSlice
+  | QGmGetSlice | QGmHostAddr => None
   end.
 
 Definition class_of_verr (e : verr) : N :=
@@ -90,9 +92,9 @@ Definition run_step (c : case01) (st : rstate) (o : sop) : sobs * rstate :=
   | SGMem =>
       let fr := find_region_lin 0 (mk_regions 0 (c_regions c)) (s_a o) in
       let ridx := match fr with Some (i, _) => i | None => 0 end in
-      match s_code o with
-      | 19 => finish c st ridx (lift_g ASlice (gm_get_slice (c_mode c) (option_map snd fr) (s_a o) (s_b o)))
-      | 20 => finish c st ridx (lift_g AHost (gm_get_host_address (option_map snd fr) (s_a o)))
+      match s_rq o with
+      | QGmGetSlice => finish c st ridx (lift_g ASlice (gm_get_slice (c_mode c) (option_map snd fr) (s_a o) (s_b o)))
+      | QGmHostAddr => finish c st ridx (lift_g AHost (gm_get_host_address (option_map snd fr) (s_a o)))
       | _ => (err_obs 7, st)
       end
   end.
@@ -114,11 +116,15 @@ Fixpoint parse_ops (l : list tok) {struct l} : option (list sop) :=
   match l with
   | [] => Some []
   | TL [code; ty; a; b] :: r =>
-      if (a <? W64) && (b <? W64) && ty_known ty then
-        match parse_ops r with
-        | Some ops => Some ({| s_code := code; s_ty := ty; s_a := a; s_b := b |} :: ops)
-        | None => None end
-      else None
+      match rq_of_code code with
+      | Some q =>
+          if (a <? W64) && (b <? W64) && ty_known ty then
+            match parse_ops r with
+            | Some ops => Some ({| s_rq := q; s_ty := ty; s_a := a; s_b := b |} :: ops)
+            | None => None end
+          else None
+      | None => None
+      end
   | _ => None
   end.
 Fixpoint parse_obs (l : list tok) {struct l} : option (list sobs) :=
